@@ -1,0 +1,6 @@
+//go:build !verif
+
+package stream
+
+// verifYieldPoint is a no-op without the `verif` build tag (see verif_yield.go).
+func verifYieldPoint(string) {}
